@@ -239,6 +239,9 @@ class Interp:
         # lengths the *rule* knows from the documented data layout (e.g. a
         # positions array has three columns); used to unroll a zip()
         self.known_len = known_len
+        # (base, name) -> True if the configuration under analysis says the
+        # attribute does not exist (set by rules that fold cache states)
+        self.attr_absent = None
         self.prog = prog
         self._explicit_inline = inline
         self.auto_inline = auto_inline
@@ -503,6 +506,14 @@ class Interp:
         for t in s.targets:
             if isinstance(t, ast.Attribute):
                 base = self.eval(t.value, frame, live)
+                if self.attr_absent is not None and \
+                        self.attr_absent(base, t.attr) is True:
+                    # deleting an attribute the configuration says is not
+                    # there raises AttributeError: what follows is dead
+                    self.emit("raise", s, live, frame,
+                              exc=tm.glob("builtins.AttributeError"),
+                              exc_name="builtins.AttributeError")
+                    return FALSE
                 self.emit("delattr", s, live, frame, base=base, name=t.attr)
                 self._store_attr(base, t.attr, T("deleted"), live)
             elif isinstance(t, ast.Subscript):
